@@ -38,7 +38,10 @@ def main():
         return gen.cohort(r, n_ind=n or int(r.integers(5, 9)), n_feat=dim, missing="mcar", events=events, one_visit_ok=False, binary=binary)
 
     df_train = cohort(job["cohort_seed"])
-    df_new = cohort(job["cohort_seed"] + 1, n=4)
+    # the personalised cohort: 4 new subjects, or as many subjects as the training cohort (what a fit leaves in the model has that size)
+    df_new = cohort(job["cohort_seed"] + 1, n=(df_train["ID"].nunique() if job.get("same_size") else 4))
+    # the seed as the caller may hold it: a python int, a numpy integer (an element of an array of seeds) or an integral float
+    SEED = {"int": int, "np.int64": np.int64, "np.int32": np.int32, "float": float}[job.get("seed_type", "int")](job["seed"])
 
     def new_model():
         kw = {"n_clusters": 2} if kind == "mixture_logistic" else {}
@@ -105,9 +108,9 @@ def main():
                     d0 = gen.cohort(np.random.default_rng(77), n_ind=5, n_feat=2, missing="none", one_visit_ok=False)
                     m0.fit(gen.to_dataset(d0), algorithm_settings=settings)
                     settings.parameters["n_iter"] = job["settings"]["n_iter"]
-                    settings.seed = job["seed"]
+                    settings.seed = int(job["seed"])  # (attribute assignment bypasses the constructor's conversion: a plain int here)
                 else:
-                    settings = AlgorithmSettings("mcmc_saem", seed=job["seed"], progress_bar=False, **job["settings"])
+                    settings = AlgorithmSettings("mcmc_saem", seed=SEED, progress_bar=False, **job["settings"])
                 if logs is not None:
                     lg = dict(logs)
                     if lg.get("path"):
@@ -142,13 +145,13 @@ def main():
                         _shared["table"] = pd.DataFrame(rows_, columns=["ID", "TIME"])
                     # one table object for every call of this interpreter (a caller re-using its design)
                     vp = {"visit_type": "dataframe", "df_visits": _shared["table"]}
-                res = m.simulate(algorithm="simulate", features=list(m.features), visit_parameters=vp, seed=job["seed"])
+                res = m.simulate(algorithm="simulate", features=list(m.features), visit_parameters=vp, seed=SEED)
                 d = res.data.to_dataframe()
                 ipd = res.individual_parameters
                 ipd = ipd if isinstance(ipd, pd.DataFrame) else ipd.to_dataframe() if hasattr(ipd, "to_dataframe") else None
                 extra = "" if ipd is None else ipd.to_csv(float_format="%.17g")
                 return {"final": hashlib.sha256((d.to_csv(float_format="%.17g") + extra).encode()).hexdigest()[:16], "trace": []}
-            ip = m.personalize(gen.to_dataset(df_new, events=events), what, seed=job["seed"], progress_bar=False, **job["settings"])
+            ip = m.personalize(gen.to_dataset(df_new, events=events), what, seed=SEED, progress_bar=False, **job["settings"])
             ids, t = ip.to_pytorch()
             return {"final": dig_tensors(dict(t)) + ":" + ",".join(ids), "trace": []}
 
